@@ -263,6 +263,7 @@ def _history(ctx, inj, idx):
             except Exception as exc:
                 rec["exception"] = repr(exc)
             rec["ret"] = next(clock)
+            rec["t_ret"] = time.monotonic()
             with calls_lock:
                 outstanding[0] -= 1
 
@@ -384,6 +385,14 @@ def _history(ctx, inj, idx):
             # a timely reply must have been returned
             mine = [r for r in peer.replies if r["tag"] == c["tag"] and not r["late"]]
             if mine and t3 >= 5.0 and mine[0]["delay"] < 1.0 and req is not None and req[1] == c["generation"]:
+                # the reply was put on the link in time. If the endpoint handed it to the application as an ordinary message
+                # *after* the requester had given up (T3 >= 5 s of real time later), its threads were kept off the processor for
+                # that long (seen once, load 40 on 16 cores): late, not misrouted. Handed over while the requester was still
+                # waiting, or never seen again, it stays a violation.
+                late = [m for m in list(rig.delivered) if m["system"] == req[2] and (m["stream"], m["function"]) in ((2, 26), (2, 0))]
+                if late and all(m["t"] >= c.get("t_ret", float("inf")) - 0.05 for m in late):
+                    ctx.count("replies_in_time_on_the_link_but_dispatched_after_T3_under_load")
+                    continue
                 ctx.violation("timely-reply-not-returned-to-requester", {**base, "tag": c["tag"].hex(), "reply_delay_s": round(mine[0]["delay"], 4)})
     # (4) unsolicited primaries: exactly once, in arrival order, never overlapping
     mine_unsol = set(peer.unsol_sent)
